@@ -71,6 +71,7 @@ type TxShape struct {
 	NoIndex     bool         `json:"no_index,omitempty"`    // position index omitted
 	NoMeta      bool         `json:"no_meta,omitempty"`     // empty metadata
 	CidSha512   bool         `json:"cid_sha512,omitempty"`  // the Transaction node is addressed by a sha2-512 CID
+	CidShort    bool         `json:"cid_short,omitempty"`   // ... by a sha1 CID (24 bytes)
 	BigAmounts  bool         `json:"big_amounts,omitempty"` // fee, balances and compute units above 2^53 (not representable as float64)
 	TxPad       int          `json:"tx_pad,omitempty"`      // extra instruction data bytes
 	Meta        PayloadShape `json:"meta,omitempty"`
@@ -88,6 +89,7 @@ type BlockShape struct {
 	Entries    [][]TxShape   `json:"entries"`
 	Rewards    *PayloadShape `json:"rewards,omitempty"`    // nil = no rewards (dummy CID)
 	CidSha512  bool          `json:"cid_sha512,omitempty"` // the Block node is addressed by a sha2-512 CID (68 bytes instead of 36)
+	CidShort   bool          `json:"cid_short,omitempty"`  // ... by a sha1 CID (24 bytes)
 }
 
 type Shape struct {
@@ -203,12 +205,21 @@ func cidFor(data []byte, sha512root bool) cid.Cid {
 	if sha512root {
 		mh = multihash.SHA2_512
 	}
+	if shortCidNext {
+		// a CID shorter than the archive's usual 36 bytes: CIDv1 dag-cbor with sha1 (24 bytes)
+		shortCidNext = false
+		mh = multihash.SHA1
+	}
 	c, err := cid.Prefix{Version: 1, Codec: cid.DagCBOR, MhType: mh, MhLength: -1}.Sum(data)
 	if err != nil {
 		panic(err)
 	}
 	return c
 }
+
+// shortCidNext makes the next cidFor call produce a 24-byte CID (set by the shapes' CidShort flags; the generator
+// is single-threaded).
+var shortCidNext bool
 
 // add appends an object to the CAR body and records its truth (offset fixed up once the header is known).
 func (g *gen) add(data []byte, kind int, sha512root bool) (cid.Cid, int) {
@@ -413,6 +424,7 @@ func Generate(shape Shape) *Truth {
 			bt.Height, bt.HasHeight = h, true
 			blk.Meta.Block_height = pp(int(h))
 		}
+		shortCidNext = bs.CidShort
 		c, oi := g.add(encode(&blk, ipldbindcode.Prototypes.Block.Type()), KindBlock, bs.CidSha512)
 		bt.Cid, bt.Obj = c, oi
 		t.Blocks = append(t.Blocks, bt)
@@ -586,6 +598,7 @@ func (g *gen) tx(ts TxShape, slot uint64, pos, blockIdx, counter int) TxTruth {
 	if !ts.NoIndex {
 		node.Index = pp(pos)
 	}
+	shortCidNext = ts.CidShort
 	c, oi := g.add(encode(&node, ipldbindcode.Prototypes.Transaction.Type()), KindTransaction, ts.CidSha512)
 	tt.Cid, tt.Obj = c, oi
 	return tt
